@@ -7,6 +7,7 @@ import (
 	"fmt"
 	"math/rand/v2"
 	"net/netip"
+	"runtime"
 	"strings"
 	"sync"
 	"sync/atomic"
@@ -757,6 +758,30 @@ func runSequence(res *core.Result, r *rand.Rand, ids []*m.Address, keyPrefix str
 	n := 2 + r.IntN(4)
 	w := newWorld(res, r, ids, n)
 	defer w.teardown()
+	if r.IntN(2) == 0 {
+		// Readers of the registry run next to the events, as they do in a router (keep-alive, announcements, the
+		// switch looking up labels): what they do must not matter for what the registry says at the next quiescent point.
+		var stop atomic.Bool
+		var readers sync.WaitGroup
+		for g := 0; g < 2; g++ {
+			readers.Add(1)
+			core.OnHelper(func() {
+				defer readers.Done()
+				for k := 0; !stop.Load(); k++ {
+					nd := w.nodes[k%len(w.nodes)]
+					for _, l := range nd.r.Inst.PeeringV.GetLinks() {
+						_ = nd.r.Inst.PeeringV.GetLinkByLabel(l.SwitchLabel())
+						_ = nd.r.Inst.PeeringV.GetLink(l.Peer())
+					}
+					if k%64 == 63 {
+						runtime.Gosched()
+					}
+				}
+			})
+		}
+		defer func() { stop.Store(true); readers.Wait() }()
+		res.Count("sequences_with_concurrent_registry_readers", 1)
+	}
 	nev := 6 + r.IntN(35)
 	interesting := false
 	lastPair := [2]int{-1, -1}
